@@ -136,20 +136,20 @@ pub struct Entry<R> {
     pub kind: EKind<R>,
 }
 
-pub type Log<R> = Rc<RefCell<Vec<Entry<R>>>>;
 
 struct Ctx<F: Family> {
     prog: Arc<SS<Program<F>>>,
     objs: F::Objs,
     handles: RefCell<Vec<Option<shuttle::thread::JoinHandle<()>>>>,
-    log: Log<F::Res>,
+    /// one Vec per execution; the current execution's is the last
+    log: Logs<F::Res>,
 }
 
 fn run_thread<F: Family>(ctx: Arc<SS<Ctx<F>>>, t: usize) {
     let c = &ctx.0;
     let me: usize = shuttle::current::me().into();
     let push = |op: usize, kind: EKind<F::Res>| {
-        c.log.borrow_mut().push(Entry {
+        c.log.borrow_mut().last_mut().expect("log of current execution").push(Entry {
             stamp: crate::explore::decision_stamp(),
             thread: t,
             task: me,
@@ -242,31 +242,26 @@ pub fn base_config() -> Config {
     c
 }
 
-/// Run one execution of `prog` under the given scheduler handle; returns the log and the raw ending.
-pub fn run_once<F: Family, S: shuttle_engine::scheduler::Scheduler + 'static>(
-    prog: &Arc<SS<Program<F>>>,
-    sched: S,
-    config: &Config,
-) -> (Vec<Entry<F::Res>>, RawEnding) {
-    let log: Log<F::Res> = Rc::new(RefCell::new(Vec::new()));
-    let body = {
-        let prog = prog.clone();
-        let log = SS(log.clone());
-        move || {
-            let n = prog.get().threads.len();
-            let ctx = Arc::new(SS(Ctx::<F> {
-                prog: prog.clone(),
-                objs: F::make_objs(&prog.get().cfg, n),
-                handles: RefCell::new((0..n).map(|_| None).collect()),
-                log: log.get().clone(),
-            }));
-            run_thread::<F>(ctx, 0);
-        }
-    };
-    let r = catch_unwind(AssertUnwindSafe(|| {
-        Runner::new(sched, config.clone()).run(body);
-    }));
-    let ending = match r {
+pub type Logs<R> = Rc<RefCell<Vec<Vec<Entry<R>>>>>;
+
+fn make_body<F: Family>(prog: &Arc<SS<Program<F>>>, logs: &Logs<F::Res>) -> impl Fn() + Send + Sync + 'static {
+    let prog = prog.clone();
+    let logs = SS(logs.clone());
+    move || {
+        let n = prog.get().threads.len();
+        logs.get().borrow_mut().push(Vec::new());
+        let ctx = Arc::new(SS(Ctx::<F> {
+            prog: prog.clone(),
+            objs: F::make_objs(&prog.get().cfg, n),
+            handles: RefCell::new((0..n).map(|_| None).collect()),
+            log: logs.get().clone(),
+        }));
+        run_thread::<F>(ctx, 0);
+    }
+}
+
+fn classify(r: std::thread::Result<()>) -> RawEnding {
+    match r {
         Ok(()) => RawEnding::Ok,
         Err(p) => {
             let msg = payload_to_string(&p);
@@ -275,8 +270,22 @@ pub fn run_once<F: Family, S: shuttle_engine::scheduler::Scheduler + 'static>(
                 None => RawEnding::Panic(msg),
             }
         }
-    };
-    let l = log.borrow().clone();
+    }
+}
+
+/// Run one execution of `prog` under the given scheduler; returns the log and the raw ending.
+pub fn run_once<F: Family, S: shuttle_engine::scheduler::Scheduler + 'static>(
+    prog: &Arc<SS<Program<F>>>,
+    sched: S,
+    config: &Config,
+) -> (Vec<Entry<F::Res>>, RawEnding) {
+    let logs: Logs<F::Res> = Rc::new(RefCell::new(Vec::new()));
+    let body = make_body::<F>(prog, &logs);
+    let r = catch_unwind(AssertUnwindSafe(|| {
+        Runner::new(sched, config.clone()).run(body);
+    }));
+    let ending = classify(r);
+    let l = logs.borrow_mut().pop().unwrap_or_default();
     (l, ending)
 }
 
@@ -290,6 +299,8 @@ pub struct TreeStats {
 }
 
 /// Explore the whole choice tree of `prog`, calling `visit` for every execution.
+/// Several executions share one `Runner::run` (and therefore one continuation pool); a run ends
+/// early when an execution fails (deadlock / panic), which is then the last record of the batch.
 /// Returns Err on machinery errors (replay divergence).
 pub fn explore_program<F: Family>(
     prog: &Arc<SS<Program<F>>>,
@@ -298,24 +309,46 @@ pub fn explore_program<F: Family>(
     mut visit: impl FnMut(&ExecRecord<F::Res>, &Explorer),
 ) -> Result<TreeStats, String> {
     let ex = Explorer::new(opts);
+    ex.set_executions_per_run(128);
     let config = base_config();
     let mut capped = false;
+    let logs: Logs<F::Res> = Rc::new(RefCell::new(Vec::new()));
     loop {
-        let (log, mut raw) = run_once::<F, _>(prog, ex.handle(), &config);
+        let body = make_body::<F>(prog, &logs);
+        let r = catch_unwind(AssertUnwindSafe(|| {
+            Runner::new(ex.handle(), config.clone()).run(body);
+        }));
+        let last_ending = classify(r);
         ex.advance();
         if let Some(d) = ex.diverged() {
             return Err(format!("{} — program {}", d, prog.0.describe()));
         }
-        let path = ex.path();
-        if raw == RawEnding::Ok && matches!(path.last().map(|n| n.chosen()), Some(Alt::Stop)) {
-            raw = RawEnding::Stopped;
+        let fin = ex.drain_finished();
+        let ls: Vec<Vec<Entry<F::Res>>> = std::mem::take(&mut *logs.borrow_mut());
+        if fin.len() != ls.len() {
+            return Err(format!(
+                "explorer finished {} executions but {} bodies ran — program {}",
+                fin.len(),
+                ls.len(),
+                prog.0.describe()
+            ));
         }
-        let rec = ExecRecord {
-            log,
-            path,
-            raw_ending: raw,
-        };
-        visit(&rec, &ex);
+        let nfin = fin.len();
+        for (i, ((path, stopped), log)) in fin.into_iter().zip(ls.into_iter()).enumerate() {
+            let raw = if i + 1 == nfin && last_ending != RawEnding::Ok {
+                last_ending.clone()
+            } else if stopped {
+                RawEnding::Stopped
+            } else {
+                RawEnding::Ok
+            };
+            let rec = ExecRecord {
+                log,
+                path,
+                raw_ending: raw,
+            };
+            visit(&rec, &ex);
+        }
         if ex.exhausted() {
             break;
         }
